@@ -354,6 +354,9 @@ type Exec struct {
 	opaqueTypes    map[types.Type]bool
 	SolverRestarts int
 	curWorld       *World
+	Deadline       time.Time // zero: none
+	Aborted        bool
+	SplitData      bool  // goroutine mode: keep worlds with different small control data apart
 	baseG          *Term // guard of the world whose segment is being executed (goroutine mode)
 	nArrSel        int
 	dbgOnce        bool
